@@ -47,12 +47,29 @@ resolve = Fn(F, "parse_and_resolve_includes", slot="parser", ret="res", key="par
     ], decreases="root_ast.nodes@.len() - node_index")},
 )
 
+many = Fn(F, "parse_many_and_resolve_includes", slot="parser", ret="res", key="parser::parse_many_and_resolve_includes", props=["C14", "C03"],
+    ensures=[
+        C("err_is_loud", "res is Err ==> final(report).msgs() > old(report).msgs()", ["C03"]),
+        C("every_include_of_every_root_file_is_replaced", "res is Ok ==> no_include_left(res->Ok_0.nodes@)", ["C14"]),
+    ],
+    rewrites=[
+        Rewrite("for file in root_filenames\n", "for file in it: root_filenames\n", rule="R5", why="ghost iterator named"),
+        Rewrite("            file.borrow(),\n", "            verif_to_owned(verif_borrow_str(file)),\n", rule="R8", why="`S::borrow()` passed on as the next `S` -> the name as an owned String (the same text; ASSUMED via name_text)"),
+        Rewrite("result.nodes.extend(ast.nodes);", "verif_extend_nodes(&mut result.nodes, ast.nodes);", rule="R16", why="`Vec::extend(Vec)` -> prelude wrapper (appended in order)"),
+        Rewrite("let mut once_filenames = std::collections::HashSet::new();", "let mut once_filenames = verif_once_new();", rule="R8", why="HashSet::new -> prelude wrapper (empty set in the uninterpreted model)"),
+    ],
+    loops={1: Loop(invariant=[
+        C("report", "report.msgs() >= old(report).msgs()"),
+        C("done_so_far", "no_include_left(result.nodes@)"),
+    ])},
+)
+
 UNIT = Unit(
     "U-include", "u_include/skeleton.rs",
     items=[f for f in report_fns("stub", "diagn") if f.name in ("error_span",)] + [
         Type("src/asm/parser/directive_include.rs", "struct", "AstDirectiveInclude", slot="parser"),
         Type(F, "struct", "AstTopLevel", slot="parser"),
-        navigate, parse, resolve,
+        navigate, parse, resolve, many,
     ],
     serves=["C14", "C03"],
     description="asm::parser::parse_and_resolve_includes: every #include is replaced, the include stack discipline behind the cycle check, #once",
